@@ -26,6 +26,12 @@ fn main() {
             if args.len() < 3 {
                 usage();
             }
+            if std::env::var("VERIF_IGNORE_XFSZ").is_ok() {
+                // error-return variant of the write-limit injection: write() fails with EFBIG
+                unsafe {
+                    libc::signal(libc::SIGXFSZ, libc::SIG_IGN);
+                }
+            }
             out::init(args.get(3).map(|s| s.as_str()));
             out::install_panic_hook();
             let f = std::fs::File::open(&args[2]).expect("cannot open scenario file");
